@@ -46,7 +46,7 @@ def purify(exprs):
     cache = {}
     arith = {z3.Z3_OP_ADD, z3.Z3_OP_SUB, z3.Z3_OP_MUL, z3.Z3_OP_DIV, z3.Z3_OP_UMINUS, z3.Z3_OP_LE, z3.Z3_OP_LT,
              z3.Z3_OP_GE, z3.Z3_OP_GT, z3.Z3_OP_EQ, z3.Z3_OP_DISTINCT, z3.Z3_OP_AND, z3.Z3_OP_OR, z3.Z3_OP_NOT,
-             z3.Z3_OP_IMPLIES, z3.Z3_OP_ITE, z3.Z3_OP_TO_REAL, z3.Z3_OP_ANUM, z3.Z3_OP_TRUE, z3.Z3_OP_FALSE,
+             z3.Z3_OP_IMPLIES, z3.Z3_OP_ITE, z3.Z3_OP_ANUM, z3.Z3_OP_TRUE, z3.Z3_OP_FALSE,
              z3.Z3_OP_POWER, z3.Z3_OP_IFF if hasattr(z3, 'Z3_OP_IFF') else z3.Z3_OP_EQ}
 
     def walk(e):
